@@ -481,9 +481,13 @@ func (h *harness) finish(state *cat.Catalogue) *finishRes {
 			r.IdleErr = err.Error()
 		}
 	}
-	h.count(r.Runs)
 	h.mu.Lock()
-	h.memo[key] = r
+	if prev, ok := h.memo[key]; ok {
+		r = prev // computed concurrently by another worker: count it once
+	} else {
+		h.memo[key] = r
+		h.updates += int64(r.Runs)
+	}
 	h.mu.Unlock()
 	return r
 }
